@@ -11,6 +11,9 @@ import UF.Basic.Bytes
   * `search` – unanchored `MatchString`: try every start position.
 
   Case-insensitive matching `(?i)` is a flag on literals and classes (`Re.foldCase` sets it everywhere).
+  The semantics below is the textbook one for the TREE; which tree Go compiles for a TEXT is the
+  parser's business (UF/Model/RegexParse.lean, and UF/Model/RegexQuirk.lean for the one place where Go's
+  tree does not have the language of the text it was given).
   Validated against the real engine by the `re` / `c05.tree` op families (harness/op_re.go, op_c05.go).
 -/
 namespace UF
